@@ -387,12 +387,39 @@ def _ownership(ctx, repo, cls):
     if ok:
         l = loops[0]
         r = norm(l.target)
-        inner = [x for x in l.body if isinstance(x, ast.For) and norm(x.iter) == "descendants"]
-        ok = len(inner) == 1 and f"names = [v.name for v in {r}.dimensions]" in norm(l)
+        defs = {a.targets[0].id: a.value for a in ast.walk(l) if isinstance(a, ast.Assign) and len(a.targets) == 1 and isinstance(a.targets[0], ast.Name)}
+
+        def is_names(e):
+            """e enumerates the names of the variables of r's scope"""
+            if isinstance(e, ast.Name) and e.id in defs:
+                e = defs[e.id]
+            if isinstance(e, ast.Call) and call_name(e) in ("list", "set", "tuple", "frozenset") and len(e.args) == 1:
+                e = e.args[0]
+            return isinstance(e, (ast.ListComp, ast.SetComp, ast.GeneratorExp)) and len(e.generators) == 1 and not e.generators[0].ifs and norm(e.generators[0].iter) in (f"{r}.dimensions", f"{r}.scope_names") \
+                and norm(e.elt) in (f"{norm(e.generators[0].target)}.name", norm(e.generators[0].target) if norm(e.generators[0].iter).endswith("scope_names") else "") \
+                or norm(e) == f"{r}.scope_names"
+
+        def exists_test(t):
+            """t is `any(d in NAMES for d in descendants)`"""
+            if isinstance(t, ast.Call) and call_name(t) == "any" and len(t.args) == 1 and isinstance(t.args[0], (ast.GeneratorExp, ast.ListComp)):
+                g = t.args[0]
+                if len(g.generators) == 1 and not g.generators[0].ifs and norm(g.generators[0].iter) == "descendants" and isinstance(g.elt, ast.Compare) and len(g.elt.ops) == 1 \
+                        and isinstance(g.elt.ops[0], ast.In) and norm(g.elt.left) == norm(g.generators[0].target) and is_names(g.elt.comparators[0]):
+                    return True
+            return False
+        removes = [c for c in ast.walk(l) if isinstance(c, ast.Call) and norm(c.func) == "constraints.remove"]
+        ok = len(removes) == 1 and [norm(a) for a in removes[0].args] == [r]
         if ok:
-            dv = norm(inner[0].target)
-            body = inner[0].body
-            ok = len(body) == 1 and isinstance(body[0], ast.If) and norm(body[0].test) == f"{dv} in names" and [norm(s) for s in body[0].body] == [f"constraints.remove({r})", "break"]
+            inner = [x for x in l.body if isinstance(x, ast.For) and norm(x.iter) == "descendants" and any(n is removes[0] for n in ast.walk(x))]
+            if inner:
+                dv = norm(inner[0].target)
+                body = inner[0].body
+                ok = len(inner) == 1 and len(body) == 1 and isinstance(body[0], ast.If) and not body[0].orelse and isinstance(body[0].test, ast.Compare) and len(body[0].test.ops) == 1 \
+                    and isinstance(body[0].test.ops[0], ast.In) and norm(body[0].test.left) == dv and is_names(body[0].test.comparators[0]) \
+                    and [norm(s_) for s_ in body[0].body] == [f"constraints.remove({r})", "break"]
+            else:
+                guard = [x for x in l.body if isinstance(x, ast.If) and not x.orelse and any(n is removes[0] for n in ast.walk(x))]
+                ok = len(guard) == 1 and exists_test(guard[0].test) and [norm(s_) for s_ in guard[0].body] == [f"constraints.remove({r})"]
     ctx.check(ok, "R-OWNERSHIP", "a constraint is dropped iff one of the node's children / pseudo-children is in its scope (iterating the original list, removing from a copy)", ini,
               loops[0] if loops else ini.node, "each constraint must be counted exactly once in the tree: at the lowest node of its scope")
 
@@ -416,5 +443,9 @@ VARIANTS = [
     ("join_fast_path_unordered", _R, "    dims = u1.dimensions[:]\n    for d2 in u2.dimensions:", "    if isinstance(u1, NAryMatrixRelation) and isinstance(u2, NAryMatrixRelation) and set(u1.scope_names) == set(u2.scope_names):\n        return NAryMatrixRelation(u1.dimensions, u1._m + u2._m, name='joined_utils')\n    dims = u1.dimensions[:]\n    for d2 in u2.dimensions:", "break", "R-ALIGN"),
     ("isolated_rebuilds_joined", _D, "            if self._constraints:\n                for r in self._constraints:\n                    self._joined_utils = join(self._joined_utils, r)\n\n                values, current_cost = find_arg_optimal(", "            if self._constraints:\n                self._joined_utils = functools.reduce(join, self._constraints)\n\n                values, current_cost = find_arg_optimal(", "break", "R-UTIL"),
     ("tie_by_tolerance", _R, "        elif current_rel_val == best_rel_val:", "        elif abs(current_rel_val - best_rel_val) < 1e-9:", "break", "R-TIES"),
+    ("n_ownership_with_any", _D, "            names = [v.name for v in r.dimensions]\n            for descendant in descendants:\n                if descendant in names:\n                    constraints.remove(r)\n                    break\n",
+     "            names = [v.name for v in r.dimensions]\n            if any(d in names for d in descendants):\n                constraints.remove(r)\n", "neutral"),
+    ("ownership_with_all", _D, "            names = [v.name for v in r.dimensions]\n            for descendant in descendants:\n                if descendant in names:\n                    constraints.remove(r)\n                    break\n",
+     "            names = [v.name for v in r.dimensions]\n            if all(d in names for d in descendants):\n                constraints.remove(r)\n", "break", "R-OWNERSHIP"),
     ("n_value_lists_renamed", _D, ["variables_msg", "values_msg"], ["sep_vars", "sep_vals"], "neutral"),
 ]
